@@ -143,6 +143,19 @@ async def session(ctx, case):
                 cv, ev = gen_value(rng, kind)
                 vec.get_element(nm).value = cv
                 sent[nm] = ev
+            if rng.random() < 0.25:
+                # meanwhile the driver withdraws ANOTHER property of that device and offers it again (a named delProperty and a
+                # definition): nothing of what client and server agreed on about the device may get lost over that
+                drv_, spec_ = byname[d]
+                others = [(ga, va) for ga, va, g_, v_ in D.locate(spec_) if v_["name"] != p and v_["enabled"] and g_["enabled"]]
+                if others:
+                    ga, va = rng.choice(others)
+                    ov = D.vector_of(drv_, ga, va)
+                    if ov.enabled:
+                        ov.enabled = False
+                        ov.enabled = True
+                        await sess.quiesce()
+                        ctx.count("other_property_withdrawn_and_offered_again_before_a_write")
             before = snapshot(drivers, specs)
             tap.clear()
             wcase = dict(case, write=w, target=[d, p, chosen])
